@@ -3,6 +3,7 @@ package props
 import (
 	"bytes"
 	"fmt"
+	"github.com/dave/dst/decorator/resolver"
 	"github.com/dave/dst/decorator/resolver/goast"
 	"go/ast"
 	"go/parser"
@@ -14,6 +15,7 @@ import (
 	"github.com/dave/dst"
 	"github.com/dave/dst/decorator"
 	"github.com/dave/dst/decorator/resolver/gotypes"
+	"github.com/dave/dst/decorator/resolver/guess"
 	"github.com/dave/dst/decorator/resolver/simple"
 
 	"verif/internal/fw"
@@ -137,7 +139,7 @@ func c10One(c *fw.Ctx, id string, i int) {
 	}
 	// a second package with its own file (target of cross-package moves)
 	otherSpec := &gen.FileSpec{Name: "o0.go", Naming: map[string]string{}, Snippets: []int{r.Intn(len(gen.Snippets)), r.Intn(len(gen.Snippets))}}
-	for _, k := range []string{"A", "B", "C", "D", "E", "F", "G"} {
+	for _, k := range []string{"A", "B", "C", "D", "E", "F", "G", "H"} {
 		switch r.Intn(3) {
 		case 1:
 			otherSpec.Naming[k] = "o" + strings.ToLower(k)
@@ -146,7 +148,7 @@ func c10One(c *fw.Ctx, id string, i int) {
 	if r.Intn(3) == 0 {
 		otherSpec.Naming["D"] = "."
 	}
-	for _, k := range []string{"A", "B", "C", "E", "F", "G"} {
+	for _, k := range []string{"A", "B", "C", "E", "F", "G", "H"} {
 		if r.Intn(4) == 0 {
 			otherSpec.Blank = append(otherSpec.Blank, k)
 		}
@@ -384,7 +386,12 @@ func c10One(c *fw.Ctx, id string, i int) {
 	// restore
 	names := libNames()
 	restore := func(f *dst.File, pkgPath string, alias map[string]string) (string, string) {
-		rs := decorator.NewRestorerWithImports(pkgPath, simple.New(names))
+		// the exact name table through either of the two map-backed resolvers
+		var rres resolver.RestorerResolver = simple.New(names)
+		if len(alias)%2 == 1 || len(moved)%2 == 0 {
+			rres = guess.WithMap(names)
+		}
+		rs := decorator.NewRestorerWithImports(pkgPath, rres)
 		fr := rs.FileRestorer()
 		for k, v := range alias {
 			fr.Alias[k] = v
